@@ -822,7 +822,13 @@ impl<'a> Gen<'a> {
                 let cands = if arg_pure {
                     vec![]
                 } else {
-                    self.vars_of(sc, ty).into_iter().map(|v| v.0.clone()).collect::<Vec<_>>()
+                    let no_globals = self.feat.avoids("closure-valued-global-as-value");
+                    self.vars_of(sc, ty)
+                        .into_iter()
+                        .map(|v| v.0.clone())
+                        // globals are named gN: with the quarantine they are only called, never used as values
+                        .filter(|n| !(no_globals && n.starts_with('g')))
+                        .collect::<Vec<_>>()
                 };
                 self.pure_only += arg_pure as u32;
                 let saved_fun_arg = std::mem::replace(&mut self.fun_arg, 0);
@@ -884,6 +890,12 @@ impl<'a> Gen<'a> {
         let mut inner = sc.clone();
         if self.feat.avoids("capture-of-destructured-variable") {
             inner.vars.retain(|v| !(v.0.starts_with("dv") || v.0.starts_with("drb")));
+        }
+        if self.pure_only > 0 && self.feat.avoids("assign-in-closure-passed-as-argument") {
+            // a closure passed as an argument closes its upvalues by copy on the VM: a variable it
+            // captured and that is assigned later (by anybody) diverges. Such closures capture
+            // only what can never be assigned.
+            inner.vars.retain(|v| !v.2);
         }
         if self.feat.avoids("capture-of-parameter-after-aggregate-parameter") {
             // parameters (aN) that follow an aggregate-typed parameter are not captured
